@@ -98,7 +98,7 @@ class CLCKGen:
 		# be careful not to accumulate timing error when organizing the clock loop
 		ns = 1e-9
 		us = 1e-6
-		t_tick = int(self.ctr_interval // ns)
+		t_tick = int(round(self.ctr_interval / ns))
 		t_next = time.monotonic_ns()
 		while 1:
 			t_next += t_tick
